@@ -1028,7 +1028,7 @@ static int vc_motion(int cmd)
 	int r1 = xrow, r2 = xrow;	/* region rows */
 	int o1 = xoff, o2 = xoff;	/* visual region columns */
 	int lnmode = 0;			/* line-based region */
-	int mv;
+	int mv, back;
 	vi_arg2 = vi_prefix();
 	if (vi_arg2 < 0)
 		return 0;
@@ -1047,6 +1047,7 @@ static int vc_motion(int cmd)
 		o1 = 0;
 		o2 = lbuf_eol(xb, r2);
 	}
+	back = r1 == r2 && o2 < o1;
 	if (r1 > r2) {
 		swap(&r1, &r2);
 		swap(&o1, &o2);
@@ -1054,7 +1055,8 @@ static int vc_motion(int cmd)
 	if (r1 == r2 && o1 > o2)
 		swap(&o1, &o2);
 	o1 = ren_noeol(lbuf_get(xb, r1), o1);
-	if (!lnmode && strchr("fFtT;,eE%", mv))
+	/* backward F T ; , do not include the character under the cursor */
+	if (!lnmode && (strchr("eE%", mv) || (!back && strchr("fFtT;,", mv))))
 		if (o2 < lbuf_eol(xb, r2))
 			o2 = ren_noeol(lbuf_get(xb, r2), o2) + 1;
 	if (cmd == 'y')
